@@ -219,6 +219,11 @@ def _limit_mem():
 P = MetabolicPathway
 FORCED = [(P.GLYCOLYSIS, "1+1"), (P.KREBS_CYCLE, "1+1"), (P.OXIDATIVE, "1+1"), (P.BETA_OXIDATION, "[1]")]
 AUTO = [(None, t) for t in ("1+1", "t0(1)", "absx(1)", "{1}", "1 and 2", "1<2")]
+# long texts with format/template metacharacters (error paths echo part of the expression)
+LONG_BRACES = "{error_message.__class__.__mro__}" + " " * 90 + "+ 1"
+LONG_OPEN = "(" + "{" * 120
+LONG_INDEX = "{0} {missing} %s %(x)s $x " + "a" * 100
+TEXTS = [(P.GLYCOLYSIS, LONG_BRACES), (P.GLYCOLYSIS, LONG_OPEN), (P.KREBS_CYCLE, LONG_INDEX), (P.OXIDATIVE, LONG_BRACES), (None, LONG_INDEX), (P.BETA_OXIDATION, LONG_OPEN)]
 REP_FORBIDDEN = [ast.Attribute, ast.Subscript, ast.Lambda, ast.JoinedStr, ast.NamedExpr, ast.Starred]
 INNER = list(ALLOWED_NODES) + REP_FORBIDDEN
 
@@ -233,6 +238,8 @@ def walker_jobs(tier):
         # every ast.expr class at the root, every forced pathway and every auto-detection outcome
         {"depth": 1, "settings": FORCED + AUTO, "ntools_opts": (2,)},
         {"depth": 1, "settings": [FORCED[0], FORCED[2]], "ntools_opts": (0,)},
+        # failing evaluations of long texts full of template metacharacters (parser exceptions and forbidden roots)
+        {"depth": 1, "settings": TEXTS, "parse_outcomes": ("tree", "SyntaxError", "ValueError"), "classes": [ast.Attribute, ast.Constant], "values": (1, "ab")},
         # comparison chains
         {"depth": 1, "settings": FORCED[:2], "classes": [ast.Compare], "chains": (2,), "values": (1, "ab"), "funcs": ("pi",), "bad": ("getattr",)},
         # parser exceptions and injected RecursionError
